@@ -100,6 +100,28 @@ def ensure_makefile():
         sh("./mkproject.sh", cwd=COQ)
 
 
+def coqchk_stage(pid, allow_axioms=()):
+    """Independent re-check of the compiled property file and everything it depends on (thorough tier)."""
+    t0 = time.time()
+    rc, out = sh(f"coqchk -silent -o -Q . SV SV.Props.{pid}", cwd=COQ, timeout=3000)
+    res = {"ran": True, "rc": rc, "wall_s": round(time.time() - t0, 1), "ok": rc == 0, "axioms": None}
+    m = re.search(r"\* Axioms:(.*?)(?:\n\s*\n\* |\Z)", out, re.S)
+    if m:
+        ax = [a.strip() for a in m.group(1).strip().splitlines() if a.strip() and a.strip() != "<none>"]
+        res["axioms"] = ax
+        if [a for a in ax if a.split()[0] not in allow_axioms]:
+            res["ok"] = False
+    else:
+        res["ok"] = False
+    for key in ("type-in-type", "unsafe (co)fixpoints", "positivity is assumed"):
+        mm = re.search(re.escape(key) + r":\s*(\S+)", out)
+        if not mm or mm.group(1) != "<none>":
+            res["ok"] = False
+    if not res["ok"]:
+        res["tail"] = out[-800:]
+    return res
+
+
 def proof_stage(pid, targets, allow_axioms=()):
     """Build the property's .vo files, compile the statement pins, check assumptions."""
     res = {"ok": True, "failures": [], "theorems": [], "assumptions": {}, "obligations": 0, "discharged": 0}
@@ -125,6 +147,15 @@ def proof_stage(pid, targets, allow_axioms=()):
     if set(pa) - set(checks):
         res["ok"] = False
         res["failures"].append("pins: every Print Assumptions needs a Check of the same theorem")
+    try:
+        psrc = open(os.path.join(COQ, "Props", f"{pid}.v")).read()
+        declared = set(re.findall(r"^Theorem\s+(\w+)\b", psrc, re.M))
+        unpinned = sorted(declared - set(pa))
+        if unpinned:
+            res["ok"] = False
+            res["failures"].append(f"theorems of Props/{pid}.v that are not pinned (regenerate with orchestrate/mkpins.py): {unpinned}")
+    except OSError:
+        pass
     rc2, out2 = sh(f"coqc -Q {COQ} SV -noglob {pin}", timeout=600)
     for junk in ("vo", "vos", "vok", "glob"):
         try:
@@ -203,8 +234,11 @@ def run_driver(pid, case_file, extra_args=""):
     chunks = [lines[i::k] for i in range(k)]
 
     def work(ch):
-        p = subprocess.run(f"{drv} {extra_args}", shell=True, input="\n".join(ch) + "\n",
-                           stdout=subprocess.PIPE, stderr=subprocess.PIPE, text=True, timeout=3000)
+        try:
+            p = subprocess.run(f"{drv} {extra_args}", shell=True, input="\n".join(ch) + "\n",
+                               stdout=subprocess.PIPE, stderr=subprocess.PIPE, text=True, timeout=3000)
+        except subprocess.TimeoutExpired:
+            return ["error driver-timeout"] * len(ch)
         outl = p.stdout.splitlines()
         if len(outl) != len(ch):
             outl += [f"error driver-died rc={p.returncode} {p.stderr[-200:]!r}"] * (len(ch) - len(outl))
@@ -229,7 +263,9 @@ def load_known():
 
 
 def finding_class(verdict):
-    m = re.search(r"\bclass=([\w.-]+)", verdict)
+    """A known-finding tag counts only directly after the verdict word: `viol class=<name> ...`.
+    The driver must attach it only when the implementation's output is the known behaviour."""
+    m = re.match(r"(?:viol|diff)\s+class=([\w.-]+)", verdict)
     return m.group(1) if m else None
 
 
@@ -286,6 +322,11 @@ def run_check(spec, argv):
     if not pr["ok"]:
         for f in pr["failures"]:
             problems.append(("proof", f))
+    ck = {"ran": False}
+    if tier == "thorough" and pr["ok"] and not replay:
+        ck = coqchk_stage(pid, spec.get("allow_axioms", ()))
+        if not ck["ok"]:
+            problems.append(("coqchk", "independent re-check (coqchk -o) failed or reports axioms: " + str(ck)[:600]))
     okd, outd = build_driver(pid)
     if not okd:
         problems.append(("driver-build", outd))
@@ -439,6 +480,7 @@ def run_check(spec, argv):
         "searched_cases_after_break": searched,
         "samples": samples[:12],
         "harness_build_s": build_s, "coq_make_s": pr.get("make_s"),
+        "coqchk": ck,
     }
     if "extra_coverage" in spec:
         cov.update(spec["extra_coverage"](lines, verdicts))
